@@ -1460,6 +1460,10 @@ class Staircase(Pbox):
 
     def sub(self, other, dependency="f"):
 
+        if isinstance(other, Number):
+            # subtract directly: negating a numpy unsigned scalar wraps around (-np.uint8(3) == 253)
+            return pbox_number_ops(self, other, operator.sub)
+
         if dependency == "o":
             dependency = "p"
         elif dependency == "p":
